@@ -256,6 +256,27 @@ pub async fn run_one(seed: u64, recover_mode: bool) -> Vec<Value> {
     rig.emit(json!({"kind": "converged_check", "rounds": rounds, "still_migrating": still}));
     rig.observe("stable", true).await;
     emit_roles(&mut rig).await;
+    // down to the Redis nodes (spec/Repl.tla): a replicator re-asserts its role every 5 s, so one more period of virtual time
+    // after convergence every node must be what the broker's view says (L2 observation, not a listed property)
+    tokio::time::sleep(std::time::Duration::from_secs(6)).await;
+    {
+        let (_, obs) = rig.w.broker.observe().await;
+        let down: Vec<String> = rig.w.net.inner.down.lock().iter().cloned().collect();
+        let mut v = vec![];
+        for cv in obs["svc"]["clusters"].as_array().cloned().unwrap_or_default() {
+            for n in cv["nodes"].as_array().cloned().unwrap_or_default() {
+                let addr = n["addr"].as_str().unwrap_or("").to_string();
+                if down.iter().any(|d| d == n["proxy"].as_str().unwrap_or("")) {
+                    continue;
+                }
+                let m = rig.w.net.inner.redis.lock().get(&addr).map(|r| r.master_of.clone().unwrap_or_default());
+                if let Some(m) = m {
+                    v.push(json!({"node": addr, "master_of": m}));
+                }
+            }
+        }
+        rig.emit(json!({"kind": "redis_roles", "cluster": "c1", "nodes": v}));
+    }
     rig.emit(json!({"kind": "ctl_end"}));
     rig.out
 }
